@@ -156,8 +156,8 @@ class Ctx:
             self.counters['unspecified:' + why] += 1
 
     def sample(self, obj):
-        if len(self.samples) < 3:
-            self.samples.append(obj)
+        if len(self.samples) < 4:
+            self.samples.append(enc(obj))
 
     def violation(self, sig, detail, case=None):
         """sig: small dict naming construct / clause (used to match known findings)."""
@@ -293,8 +293,9 @@ def run_check(pid, tier, seed, blocks, level='model_checking', assumptions=(),
         pb['cases'] += ev
         pb['executions'] += ex
         pb['violations'] += nv
-        if sm and len(tot.samples) < 12:
-            tot.samples.append({'block': blocks[bi].name, 'case': sm[0]})
+        for smp in sm[:3]:
+            if len(tot.samples) < 16 and sum(1 for x in tot.samples if x['block'] == blocks[bi].name) < 3:
+                tot.samples.append({'block': blocks[bi].name, 'case': smp})
 
     # --- triage violations into known findings / new violations
     known = load_known()
@@ -355,7 +356,7 @@ def run_check(pid, tier, seed, blocks, level='model_checking', assumptions=(),
         'blocks': {k: dict(v) for k, v in per_block.items()},
         'counters': {k: v for k, v in sorted(tot.counters.items()) if not k.startswith('viol:')},
         'known_findings_reproduced': [known_hit[k][0].get('what', k) for k in known_hit],
-        'samples': tot.samples[:12] or [{'note': 'no cases'}],
+        'samples': tot.samples[:16] or [{'note': 'no cases'}],
         'nproc': NPROC,
     }
     if extra:
